@@ -477,6 +477,7 @@ class Aggregate:
         self.determinism_reruns = 0
         self.clients_hist = {}
         self.op_kinds = {}
+        self.switch_sites = {}
 
     @staticmethod
     def _merge(dst, src):
@@ -507,6 +508,7 @@ class Aggregate:
                 self._merge(self.fault_sites, st["fault_sites"])
                 self._merge(self.seam, {k: v for k, v in st["seam"].items() if not isinstance(v, dict)})
             self._merge(self.probes, st["probes"])
+            self._merge(self.switch_sites, st.get("switch_sites", {}))
             self._merge(self.coverage, st["coverage"])
         h = sc["hash_seeds"]["session"]
         self.hash_seeds[str(h)] = self.hash_seeds.get(str(h), 0) + 1
@@ -559,6 +561,8 @@ class Aggregate:
                                   % (self.events, self.seam.get("clock_advanced", 0), self.seam.get("clock_seconds_forward", 0), self.seam.get("clock_steps_back", 0),
                                      self.seam.get("stat_retimed", 0)),
                 "line_events_stepped": self.line_events, "line_level_switches": self.switches,
+                "distinct_switch_sites": len(self.switch_sites),
+                "switch_sites_top": dict(sorted(self.switch_sites.items(), key=lambda kv: -kv[1])[:25]),
                 "faults": {"planned": self.faults_planned, "fired_by_kind": self.faults_fired, "fired_by_site": self.fault_sites},
                 "perturbations": self.seam, "hash_seeds_session": self.hash_seeds,
                 "distinct_operation_interleavings": len(self.interleavings),
